@@ -544,26 +544,33 @@ Section Layout.
       skip_field H12. apply (slice_here 7 _ _ H13).
   Qed.
 
-  (* print_pqr's re-spacing in terms of the fields *)
+  (* print_pqr's re-spacing in terms of the fields: a blank at every field
+     boundary (columns 6, 16, 22, 26, 38, 46, 54, 62) *)
   Lemma layout_respace :
     respace laid =
-      f0 ++ " " ++ (f1 ++ f2 ++ f3) ++ " " ++ (f4 ++ f5 ++ f6 ++ f7 ++ f8 ++ f9) ++ " "
-      ++ f10 ++ " " ++ (f11 ++ f12 ++ f13 ++ tail).
+      f0 ++ " " ++ (f1 ++ f2 ++ f3) ++ " " ++ (f4 ++ f5 ++ f6) ++ " " ++ f7 ++ " "
+      ++ (f8 ++ f9) ++ " " ++ f10 ++ " " ++ f11 ++ " " ++ f12 ++ " " ++ (f13 ++ tail).
   Proof.
     assert (S1 : slice 0 6 laid = f0) by apply layout_slices.
-    assert (S4 : slice 38 46 laid = f10) by apply layout_slices.
+    assert (S4 : slice 22 26 laid = f7) by apply layout_slices.
+    assert (S6 : slice 38 46 laid = f10) by apply layout_slices.
+    assert (S7 : slice 46 54 laid = f11) by apply layout_slices.
+    assert (S8 : slice 54 62 laid = f12) by apply layout_slices.
     assert (S2 : slice 6 16 laid = f1 ++ f2 ++ f3).
     { unfold laid, slice. cbn [Nat.sub]. drop_field H0. rewrite drop_0.
       take_field H1. take_field H2. now rewrite (take_app_len 4 f3 _ H3). }
-    assert (S3 : slice 16 38 laid = f4 ++ f5 ++ f6 ++ f7 ++ f8 ++ f9).
+    assert (S3 : slice 16 22 laid = f4 ++ f5 ++ f6).
     { unfold laid, slice. cbn [Nat.sub]. drop_field H0. drop_field H1. drop_field H2. drop_field H3.
-      rewrite drop_0. take_field H4. take_field H5. take_field H6. take_field H7. take_field H8.
-      now rewrite (take_app_len 8 f9 _ H9). }
-    assert (S5 : drop 46 laid = f11 ++ f12 ++ f13 ++ tail).
+      rewrite drop_0. take_field H4. take_field H5. now rewrite (take_app_len 1 f6 _ H6). }
+    assert (S5 : slice 26 38 laid = f8 ++ f9).
+    { unfold laid, slice. cbn [Nat.sub]. drop_field H0. drop_field H1. drop_field H2. drop_field H3.
+      drop_field H4. drop_field H5. drop_field H6. drop_field H7.
+      rewrite drop_0. take_field H8. now rewrite (take_app_len 8 f9 _ H9). }
+    assert (S9 : drop 62 laid = f13 ++ tail).
     { unfold laid. drop_field H0. drop_field H1. drop_field H2. drop_field H3. drop_field H4.
       drop_field H5. drop_field H6. drop_field H7. drop_field H8. drop_field H9. drop_field H10.
-      apply drop_0. }
-    unfold respace. now rewrite S1, S2, S3, S4, S5.
+      drop_field H11. drop_field H12. apply drop_0. }
+    unfold respace. now rewrite S1, S2, S3, S4, S5, S6, S7, S8, S9.
   Qed.
 End Layout.
 
@@ -699,41 +706,32 @@ Proof. now apply all_chars_repeat. Qed.
 Lemma blanks_nonempty k : 1 <= k -> is_empty (repeat_char sp k) = false.
 Proof. destruct k; [lia | reflexivity]. Qed.
 
-(* from_pqr_line on the two token shapes the writer produces *)
-Lemma from_tokens_nochain line ty S N R Q X Y Z C Rd serial q px py pz pc pr :
+(* from_pqr_line on the token shapes the writer produces: optional chain id
+   (a token int() rejects) before resSeq, optional insertion code (a token
+   float() rejects) after it *)
+Lemma from_tokens line ty S N R chs Q inss X Y Z C Rd serial q px py pz pc pr :
   ty = "ATOM" \/ ty = "HETATM" ->
-  tokens line = [ty; S; N; R; Q; X; Y; Z; C; Rd] ->
+  tokens line = ([ty; S; N; R] ++ chs ++ [Q] ++ inss ++ [X; Y; Z; C; Rd])%list ->
+  (chs = [] \/ exists ch, chs = [ch] /\ py_int ch = None) ->
+  (inss = [] \/ exists i, inss = [i] /\ py_float i = FNot) ->
   py_int S = Some serial -> py_int Q = Some q ->
   plain_decimal X = Some px -> plain_decimal Y = Some py -> plain_decimal Z = Some pz ->
   plain_decimal C = Some pc -> plain_decimal Rd = Some pr ->
-  from_pqr_line line = PAtom (mkpatom ty serial N R None q None px py pz pc pr).
+  from_pqr_line line =
+    PAtom (mkpatom ty serial N R (hd_error chs) q (hd_error inss) px py pz pc pr).
 Proof.
-  intros Hty Ht HS HQ HX HY HZ HC HR.
-  unfold from_pqr_line. rewrite Ht.
-  assert (E : mem_str ty skip_words = false /\ mem_str ty ["ATOM"; "HETATM"] = true)
-    by (destruct Hty as [-> | ->]; split; reflexivity).
-  destruct E as [E1 E2]. rewrite E1, E2.
-  unfold parse_fields. rewrite HS, HQ. unfold parse_tail, pop_float.
-  now rewrite (py_float_plain _ _ HX), (py_float_plain _ _ HY), (py_float_plain _ _ HZ),
-    (py_float_plain _ _ HC), (py_float_plain _ _ HR).
-Qed.
-
-Lemma from_tokens_chain line ty S N R Ch Q X Y Z C Rd serial q px py pz pc pr :
-  ty = "ATOM" \/ ty = "HETATM" ->
-  tokens line = [ty; S; N; R; Ch; Q; X; Y; Z; C; Rd] ->
-  py_int S = Some serial -> py_int Ch = None -> py_int Q = Some q ->
-  plain_decimal X = Some px -> plain_decimal Y = Some py -> plain_decimal Z = Some pz ->
-  plain_decimal C = Some pc -> plain_decimal Rd = Some pr ->
-  from_pqr_line line = PAtom (mkpatom ty serial N R (Some Ch) q None px py pz pc pr).
-Proof.
-  intros Hty Ht HS HCh HQ HX HY HZ HC HR.
-  unfold from_pqr_line. rewrite Ht.
-  assert (E : mem_str ty skip_words = false /\ mem_str ty ["ATOM"; "HETATM"] = true)
-    by (destruct Hty as [-> | ->]; split; reflexivity).
-  destruct E as [E1 E2]. rewrite E1, E2.
-  unfold parse_fields. rewrite HS, HCh, HQ. unfold parse_tail, pop_float.
-  now rewrite (py_float_plain _ _ HX), (py_float_plain _ _ HY), (py_float_plain _ _ HZ),
-    (py_float_plain _ _ HC), (py_float_plain _ _ HR).
+  intros Hty Ht Hc Hi HS HQ HX HY HZ HC HR.
+  apply py_float_plain in HX, HY, HZ, HC, HR.
+  unfold from_pqr_line. rewrite Ht. cbn [List.app].
+  assert (E : starts_hash ty = false /\ mem_str ty skip_words = false
+              /\ mem_str ty ["ATOM"; "HETATM"] = true)
+    by (destruct Hty as [-> | ->]; repeat split; reflexivity).
+  destruct E as (E0 & E1 & E2). rewrite E0, E1, E2. cbn [orb].
+  unfold parse_fields. rewrite HS.
+  destruct Hc as [-> | (ch & -> & Hch)]; destruct Hi as [-> | (i & -> & Hi)];
+    cbn [List.app hd_error]; rewrite ?Hch, HQ; cbv beta iota delta [parse_tail pop_float] zeta;
+    rewrite ?Hi; cbv beta iota; rewrite HX; cbv beta iota; rewrite HY; cbv beta iota;
+    rewrite HZ; cbv beta iota; rewrite HC; cbv beta iota; rewrite HR; reflexivity.
 Qed.
 
 Lemma py_int_nondigit1 c : is_digit c = false -> py_int (String c "") = None.
@@ -743,6 +741,10 @@ Proof.
   destruct (c =? "+")%char; [reflexivity|].
   simpl. rewrite H, andb_false_r. reflexivity.
 Qed.
+
+(* a one-character token that is not a digit is not a float() either *)
+Lemma py_float_nondigit1 c : is_digit c = false -> py_float (String c "") = FNot.
+Proof. destruct c as [[] [] [] [] [] [] [] []]; vm_compute; congruence. Qed.
 
 Lemma type_field_pad a :
   type_ok a = true ->
@@ -757,11 +759,13 @@ Lemma ws_line_fields cf a :
   ws_line cf a =
     take 6 (ljust 6 (a_type a)) ++ " "
     ++ (take 5 (rjust 5 (Z_to_string (a_serial a))) ++ " " ++ name_field (a_name a)) ++ " "
-    ++ (res_field (a_res_name a) ++ " " ++ take 1 (ljust 1 (if cf then a_chain a else ""))
-        ++ take 4 (rjust 4 (Z_to_string (a_res_seq a))) ++ ins_field (a_ins a)
-        ++ coord_field (a_x a)) ++ " "
+    ++ (res_field (a_res_name a) ++ " " ++ take 1 (ljust 1 (if cf then a_chain a else ""))) ++ " "
+    ++ take 4 (rjust 4 (Z_to_string (a_res_seq a))) ++ " "
+    ++ (ins_field (a_ins a) ++ coord_field (a_x a)) ++ " "
     ++ coord_field (a_y a) ++ " "
-    ++ (coord_field (a_z a) ++ charge_field (a_charge a) ++ radius_field (a_radius a) ++ nl).
+    ++ coord_field (a_z a) ++ " "
+    ++ charge_field (a_charge a) ++ " "
+    ++ (radius_field (a_radius a) ++ nl).
 Proof.
   intros Hi. unfold ws_line. rewrite pqr_string_laid.
   apply (layout_respace _ _ " " _ _ " " _ _ _ _ _ _ _ _ nl
@@ -780,26 +784,48 @@ Lemma rjust_field_pad w s : String.length s <= w ->
   take w (rjust w s) = repeat_char sp (w - String.length s) ++ s.
 Proof. apply take_rjust_fit. Qed.
 
+(* the guard in words *)
+Lemma ws_ok_spec cf a :
+  ws_ok cf a = true ->
+  fixed_ok cf a = true /\ is_empty (a_name a) = false /\ is_empty (a_res_name a) = false /\
+  (cf = true -> any_char is_digit (a_chain a) = false) /\ any_char is_digit (a_ins a) = false.
+Proof.
+  unfold ws_ok. rewrite !andb_true_iff, !negb_true_iff.
+  intros [[[[F Nn] Nr] Dc] Di]. repeat split; auto.
+  intros ->. cbn [negb orb] in Dc. now apply negb_true_iff in Dc.
+Qed.
+
 Theorem ws_roundtrip cf a :
   ws_ok cf a = true -> from_pqr_line (ws_line cf a) = PAtom (expected_ws cf a).
 Proof.
-  unfold ws_ok. rewrite !andb_true_iff.
-  intros [[[[[[[[[[[Hty Hs] Hn] Hr] Hc] Hq] Hi] Hx] Hy] Hz] Hch] Hrd].
-  apply token_ok_spec in Hn as (Hn1 & Hn & Wn).
-  apply token_ok_spec in Hr as (Hr1 & Hr & Wr).
-  apply is_empty_true in Hi.
+  intros Hok. apply ws_ok_spec in Hok as (F & Nn & Nr & Dc & Di).
+  unfold fixed_ok in F. rewrite !andb_true_iff in F.
+  destruct F as [[[[[[[[[[[Hty Hs] Hn] Hr] Hc] Hq] Hi] Hx] Hy] Hz] Hch] Hrd].
+  apply token_ok_spec in Hn as (_ & Hn & Wn).
+  apply token_ok_spec in Hr as (_ & Hr & Wr).
+  apply token_ok_spec in Hi as (_ & Hi & Wi).
   apply fits_le in Hs, Hq, Hch, Hrd.
-  rewrite ws_line_fields by (rewrite Hi; repeat constructor).
+  rewrite ws_line_fields by exact Hi.
   destruct (type_field_pad a Hty) as (ET & WT & NT). rewrite ET.
   rewrite (rjust_field_pad 5 _ Hs), (rjust_field_pad 4 _ Hq).
   destruct (name_field_fit _ Hn) as (kN & jN & EN). rewrite EN.
   destruct (res_field_fit _ Hr) as (kR & jR & ER). rewrite ER.
-  rewrite Hi. change (ins_field "") with "    ".
   rewrite (coord_field_fit _ Hx), (coord_field_fit _ Hy), (coord_field_fit _ Hz).
   unfold charge_field, radius_field.
-  rewrite (rjust_field_pad 8 (opt_fmt4 (a_charge a))) by (clear - Hch; lia).
-  rewrite (rjust_field_pad 7 (opt_fmt4 (a_radius a))) by (clear - Hrd; lia).
-  apply fits_le in Hx, Hy, Hz.
+  rewrite (rjust_field_pad 8 (opt_fmt4 (a_charge a)) Hch).
+  rewrite (rjust_field_pad 7 (opt_fmt4 (a_radius a)) Hrd).
+  (* the printed chain column *)
+  unfold expected_ws.
+  assert (CH : exists c, (if cf then a_chain a else "") = c /\ String.length c <= 1 /\
+                 any_char is_ws c = false /\ any_char is_digit c = false /\
+                 (if cf && negb (is_empty (a_chain a)) then Some (a_chain a) else None)
+                 = (if is_empty c then None else Some c)).
+  { destruct cf; cbn [negb orb andb] in Hc |- *.
+    - apply token_ok_spec in Hc as (_ & Hc & Wc). exists (a_chain a).
+      repeat split; auto. destruct (is_empty (a_chain a)); reflexivity.
+    - exists "". repeat split. repeat constructor. }
+  destruct CH as (c & -> & Hcl & Wc & Dcc & ->).
+  clear Hc Dc Hs Hq Hch Hrd Hx Hy Hz ET EN ER Hn Hr.
   set (T := a_type a) in *. set (S := Z_to_string (a_serial a)) in *.
   set (Q := Z_to_string (a_res_seq a)) in *.
   set (X := fmt_fixed 3 (a_x a)) in *. set (Y := fmt_fixed 3 (a_y a)) in *.
@@ -819,8 +845,6 @@ Proof.
   assert (NC : is_empty C = false) by apply opt_fmt4_nonempty.
   assert (WRd : any_char is_ws Rd = false) by apply opt_fmt4_no_ws.
   assert (NRd : is_empty Rd = false) by apply opt_fmt4_nonempty.
-  assert (Nn : is_empty (a_name a) = false) by now apply is_empty_length.
-  assert (Nr : is_empty (a_res_name a) = false) by now apply is_empty_length.
   assert (PS : py_int S = Some (a_serial a)) by apply py_int_Z_to_string.
   assert (PQ : py_int Q = Some (a_res_seq a)) by apply py_int_Z_to_string.
   assert (PX : plain_decimal X = Some (pf_of 3 (a_x a))) by apply plain_decimal_fmt.
@@ -830,64 +854,64 @@ Proof.
   assert (PR : plain_decimal Rd = Some (pf_of_opt 4 (a_radius a))) by apply opt_fmt4_parse.
   assert (TY : T = "ATOM" \/ T = "HETATM") by now apply type_ok_cases.
   pose proof (blanks_ws) as BW.
-  (* the printed chain column *)
-  destruct (cf && negb (is_empty (a_chain a))) eqn:ECH.
-  - (* chain printed and non-empty *)
-    apply andb_true_iff in ECH as [Ecf Ech]. subst cf. simpl in Hc.
-    rewrite !andb_true_iff in Hc. destruct Hc as [[Hc Hd] H3].
-    apply token_ok_spec in Hc as (_ & Hc & Wc).
-    apply negb_true_iff in Ech, Hd. rewrite Ech in H3. simpl in H3. apply fits_le in H3. fold Q in H3.
-    destruct (a_chain a) as [|ch [|? ?]] eqn:EC; [discriminate Ech| |simpl in Hc; clear - Hc; lia].
-    simpl in Hd. apply orb_false_iff in Hd as [Hd _].
+  pose (L := fun (pc pi : piece) =>
+     [Word T; Gap (repeat_char sp (6 - String.length T)); Gap " ";
+      Gap (repeat_char sp (5 - String.length S)); Word S; Gap " ";
+      Gap (repeat_char sp kN); Word (a_name a); Gap (repeat_char sp jN); Gap " ";
+      Gap (repeat_char sp kR); Word (a_res_name a); Gap (repeat_char sp jR); Gap " "; pc; Gap " ";
+      Gap (repeat_char sp (4 - String.length Q)); Word Q; Gap " "; pi; Gap "   ";
+      Gap (repeat_char sp (8 - String.length X)); Word X; Gap " ";
+      Gap (repeat_char sp (8 - String.length Y)); Word Y; Gap " ";
+      Gap (repeat_char sp (8 - String.length Zc)); Word Zc; Gap " ";
+      Gap (repeat_char sp (8 - String.length C)); Word C; Gap " ";
+      Gap (repeat_char sp (7 - String.length Rd)); Word Rd; Gap nl]).
+  (* tokens of the line = the words of L pc pi, for the piece in the chain
+     column and the piece in the insertion-code column *)
+  assert (TK : forall pc pi l, l = render (L pc pi) ->
+             (match pc with Word s => any_char is_ws s = false /\ is_empty s = false
+                          | Gap g => all_chars is_ws g = true end) ->
+             (match pi with Word s => any_char is_ws s = false /\ is_empty s = false
+                          | Gap g => all_chars is_ws g = true end) ->
+             tokens l = words (L pc pi)).
+  { intros pc pi l -> Hpc Hpi. apply tokens_render. unfold L.
+    destruct pc as [gc|sc]; destruct pi as [gi|si]; cbn [wf gap_next]; rewrite !BW;
+      repeat split; try tauto; auto using blanks_nonempty.
+    all: try (left; reflexivity).
+    all: try (right; left; reflexivity). }
+  destruct c as [|ch [|? ?]]; [ | | cbn [String.length] in Hcl; clear - Hcl; lia];
+  destruct (a_ins a) as [|ic [|? ?]]; try (cbn [String.length] in Hi; clear - Hi; lia).
+  - (* no chain, no insertion code *)
+    change (take 1 (ljust 1 "")) with " ". change (ins_field "") with "    ".
+    apply (from_tokens _ T S (a_name a) (a_res_name a) [] Q [] X Y Zc C Rd); auto.
+    apply (TK (Gap " ") (Gap " ")); [|reflexivity|reflexivity].
+    unfold L. cbn [render]. rewrite !app_assoc_s, !app_empty_r. reflexivity.
+  - (* no chain, insertion code *)
+    change (take 1 (ljust 1 "")) with " ".
+    change (ins_field (String ic "")) with (String ic "   ").
+    cbn [any_char] in Di. apply orb_false_iff in Di as [Di _].
+    apply (from_tokens _ T S (a_name a) (a_res_name a) [] Q [String ic ""] X Y Zc C Rd); auto.
+    + apply (TK (Gap " ") (Word (String ic ""))); [|reflexivity|split; [exact Wi|reflexivity]].
+      unfold L. cbn [render]. rewrite !app_assoc_s, !app_empty_r. reflexivity.
+    + right. eexists. split; [reflexivity|]. now apply py_float_nondigit1.
+  - (* chain, no insertion code *)
+    change (take 1 (ljust 1 (String ch ""))) with (String ch ""). change (ins_field "") with "    ".
+    cbn [any_char] in Dcc. apply orb_false_iff in Dcc as [Dcc _].
+    apply (from_tokens _ T S (a_name a) (a_res_name a) [String ch ""] Q [] X Y Zc C Rd); auto.
+    + apply (TK (Word (String ch "")) (Gap " ")); [|split; [exact Wc|reflexivity]|reflexivity].
+      unfold L. cbn [render]. rewrite !app_assoc_s, !app_empty_r. reflexivity.
+    + right. eexists. split; [reflexivity|]. now apply py_int_nondigit1.
+  - (* chain and insertion code *)
     change (take 1 (ljust 1 (String ch ""))) with (String ch "").
-    unfold expected_ws. simpl andb. rewrite EC. cbn [is_empty negb].
-    eapply from_tokens_chain; try eassumption; [| now apply py_int_nondigit1].
-    match goal with |- tokens ?l = _ =>
-      assert (E : l = render [Word T; Gap (repeat_char sp (6 - String.length T)); Gap " ";
-                              Gap (repeat_char sp (5 - String.length S)); Word S; Gap " ";
-                              Gap (repeat_char sp kN); Word (a_name a); Gap (repeat_char sp jN); Gap " ";
-                              Gap (repeat_char sp kR); Word (a_res_name a); Gap (repeat_char sp jR); Gap " ";
-                              Word (String ch ""); Gap (repeat_char sp (4 - String.length Q)); Word Q; Gap "    ";
-                              Gap (repeat_char sp (8 - String.length X)); Word X; Gap " ";
-                              Gap (repeat_char sp (8 - String.length Y)); Word Y; Gap " ";
-                              Gap (repeat_char sp (8 - String.length Zc)); Word Zc;
-                              Gap (repeat_char sp (8 - String.length C)); Word C;
-                              Gap (repeat_char sp (7 - String.length Rd)); Word Rd; Gap nl])
-    end.
-    { cbn [render]. rewrite !app_assoc_s, !app_empty_r. reflexivity. }
-    rewrite E, tokens_render; [reflexivity|].
-    cbn [wf gap_next]. rewrite !BW.
-    repeat split; auto using blanks_nonempty.
-    all: try (right; left; reflexivity).
-    all: try (left; apply blanks_nonempty; clear - H3 Hch Hrd; lia).
-    all: try (left; reflexivity).
-    all: idtac.
-  - (* chain column blank *)
-    assert (EC : (if cf then a_chain a else "") = "").
-    { destruct cf; [|reflexivity]. simpl in ECH. apply negb_false_iff in ECH.
-      now apply is_empty_true in ECH. }
-    rewrite EC. change (take 1 (ljust 1 "")) with " ".
-    unfold expected_ws. rewrite ECH.
-    eapply from_tokens_nochain; try eassumption.
-    match goal with |- tokens ?l = _ =>
-      assert (E : l = render [Word T; Gap (repeat_char sp (6 - String.length T)); Gap " ";
-                              Gap (repeat_char sp (5 - String.length S)); Word S; Gap " ";
-                              Gap (repeat_char sp kN); Word (a_name a); Gap (repeat_char sp jN); Gap " ";
-                              Gap (repeat_char sp kR); Word (a_res_name a); Gap (repeat_char sp jR); Gap " ";
-                              Gap " "; Gap (repeat_char sp (4 - String.length Q)); Word Q; Gap "    ";
-                              Gap (repeat_char sp (8 - String.length X)); Word X; Gap " ";
-                              Gap (repeat_char sp (8 - String.length Y)); Word Y; Gap " ";
-                              Gap (repeat_char sp (8 - String.length Zc)); Word Zc;
-                              Gap (repeat_char sp (8 - String.length C)); Word C;
-                              Gap (repeat_char sp (7 - String.length Rd)); Word Rd; Gap nl])
-    end.
-    { cbn [render]. rewrite !app_assoc_s, !app_empty_r. reflexivity. }
-    rewrite E, tokens_render; [reflexivity|].
-    cbn [wf gap_next]. rewrite !BW.
-    repeat split; auto using blanks_nonempty.
-    all: try (right; left; reflexivity).
-    all: try (left; apply blanks_nonempty; clear - Hch Hrd; lia).
-    all: try (left; reflexivity).
+    change (ins_field (String ic "")) with (String ic "   ").
+    cbn [any_char] in Dcc, Di.
+    apply orb_false_iff in Dcc as [Dcc _]. apply orb_false_iff in Di as [Di _].
+    apply (from_tokens _ T S (a_name a) (a_res_name a) [String ch ""] Q [String ic ""] X Y Zc C Rd);
+      auto.
+    + apply (TK (Word (String ch "")) (Word (String ic "")));
+        [|split; [exact Wc|reflexivity]|split; [exact Wi|reflexivity]].
+      unfold L. cbn [render]. rewrite !app_assoc_s, !app_empty_r. reflexivity.
+    + right. eexists. split; [reflexivity|]. now apply py_int_nondigit1.
+    + right. eexists. split; [reflexivity|]. now apply py_float_nondigit1.
 Qed.
 
 
@@ -901,10 +925,13 @@ Qed.
        read_fixed (pqr_string cf a) = expected_fixed cf a.
 
      forall cf a, in_quantifier a = true ->
-       exists p, from_pqr_line (ws_line cf a) = PAtom p /\
-                 p = expected_ws cf a  (* and the insertion code recoverable *).
+       from_pqr_line (ws_line cf a) = PAtom (expected_ws cf a).
 
-   What holds is the same conclusion under fixed_ok / ws_ok (sections 4, 5). *)
+   What holds is the same conclusion under fixed_ok / ws_ok (sections 4, 5).
+   Since the repairs of C08-F4/F5/F7 (and of the z|charge|radius fusion) ws_ok
+   is fixed_ok (the column capacities, C08-F1..F3) minus digit chain ids
+   (C08-F6) and digit insertion codes (C08-F8); the former refutations of the
+   repaired defects are now instances of ws_roundtrip (ws_repaired_witnesses). *)
 
 Definition base_atom : atom :=
   mkatom "ATOM" 1 "CA" "ALA" "A" 12 "" (mkfx false 1000) (mkfx true 2500) (mkfx false 3125)
@@ -936,6 +963,7 @@ Definition wit_coord_neg : atom := set_x (mkfx true 1000123) base_atom.     (* -
 Definition wit_chain_resseq : atom := set_res_seq 1000 base_atom.           (* chain A, 1000 *)
 Definition wit_inscode : atom := set_ins "B" base_atom.                      (* 12B *)
 Definition wit_digit_chain : atom := set_chain "1" base_atom.
+Definition wit_digit_ins : atom := set_ins "1" base_atom.                    (* 12 + iCode 1 *)
 Definition wit_charge : atom := set_charge (Some (mkfx true 105000)) base_atom.   (* -10.5 e *)
 Definition wit_radius : atom := set_radius (Some (mkfx false 105000)) base_atom.  (* 10.5 A *)
 
@@ -962,23 +990,29 @@ Proof.
   split; [exists wit_coord_pos | exists wit_coord_neg]; vm_compute; repeat split.
 Qed.
 
-(* --whitespace --keep-chain: chain id and a 4-character resSeq become one
-   token; the default layout of the same atom is fine; pdb2pqr's reader raises *)
-Theorem ws_chain_res_seq_refuted :
-  exists a, in_quantifier a = true /\ fixed_ok true a = true /\ a_res_seq a = 1000%Z /\
-    tokens (ws_line true a) =
-      ["ATOM"; "1"; "CA"; "ALA"; "A1000"; "1.000"; "-2.500"; "3.125"; "-0.5000"; "1.8000"] /\
-    from_pqr_line (ws_line true a) = PValueError.
-Proof. exists wit_chain_resseq. vm_compute. repeat split. Qed.
+(* REPAIRED C08-F4 (--whitespace --keep-chain: chain id and a 4-character
+   resSeq were one token): for ALL atoms within the guard the reader returns
+   the chain id and the residue number *)
+Theorem ws_chain_res_seq_roundtrip a :
+  ws_ok true a = true -> is_empty (a_chain a) = false ->
+  exists p, from_pqr_line (ws_line true a) = PAtom p /\
+    p_chain p = Some (a_chain a) /\ p_res_seq p = a_res_seq a.
+Proof.
+  intros H E. eexists. split; [exact (ws_roundtrip true a H)|].
+  unfold expected_ws. cbn [p_chain p_res_seq andb]. now rewrite E.
+Qed.
 
-(* --whitespace: resSeq and insertion code become one token (any chain flag) *)
-Theorem ws_ins_code_refuted :
-  exists a, in_quantifier a = true /\ fixed_ok true a = true /\ a_ins a = "B" /\
-    tokens (ws_line false a) =
-      ["ATOM"; "1"; "CA"; "ALA"; "12B"; "1.000"; "-2.500"; "3.125"; "-0.5000"; "1.8000"] /\
-    from_pqr_line (ws_line false a) = PValueError /\
-    from_pqr_line (ws_line true a) = PValueError.
-Proof. exists wit_inscode. vm_compute. repeat split. Qed.
+(* REPAIRED C08-F5 (--whitespace: the insertion code was glued to resSeq): for
+   ALL atoms within the guard, with or without --keep-chain, the reader returns
+   the residue number and the insertion code *)
+Theorem ws_ins_code_roundtrip cf a :
+  ws_ok cf a = true -> is_empty (a_ins a) = false ->
+  exists p, from_pqr_line (ws_line cf a) = PAtom p /\
+    p_res_seq p = a_res_seq a /\ p_ins p = Some (a_ins a).
+Proof.
+  intros H E. eexists. split; [exact (ws_roundtrip cf a H)|].
+  unfold expected_ws. cbn [p_ins p_res_seq]. now rewrite E.
+Qed.
 
 (* --whitespace --keep-chain with a digit as chain id: from_pqr_line silently
    reads the chain as resSeq and shifts every later field by one *)
@@ -991,28 +1025,52 @@ Proof.
   exists wit_digit_chain. eexists. vm_compute. repeat split.
 Qed.
 
-(* beyond physical sizes (outside in_quantifier, inside "whatever the magnitude
-   of numbers"): no blank is inserted between z, charge and radius *)
-Theorem ws_charge_radius_fused :
-  (fixed_ok false wit_charge = true /\
-   tokens (ws_line false wit_charge) =
-     ["ATOM"; "1"; "CA"; "ALA"; "12"; "1.000"; "-2.500"; "3.125-10.5000"; "1.8000"] /\
-   from_pqr_line (ws_line false wit_charge) = PValueError) /\
-  (fixed_ok false wit_radius = true /\
-   tokens (ws_line false wit_radius) =
-     ["ATOM"; "1"; "CA"; "ALA"; "12"; "1.000"; "-2.500"; "3.125"; "-0.500010.5000"] /\
-   from_pqr_line (ws_line false wit_radius) = PValueError).
-Proof. vm_compute. repeat split. Qed.
+(* --whitespace with a digit as insertion code: from_pqr_line silently reads it
+   as x and shifts every later field by one (before the repair of C08-F5 the
+   same atom was read with resSeq 121) *)
+Theorem ws_digit_ins_refuted :
+  exists a p, in_quantifier a = true /\ fixed_ok false a = true /\ a_ins a = "1" /\
+    a_x a = mkfx false 1000 /\
+    tokens (ws_line false a) =
+      ["ATOM"; "1"; "CA"; "ALA"; "12"; "1"; "1.000"; "-2.500"; "3.125"; "-0.5000"; "1.8000"] /\
+    from_pqr_line (ws_line false a) = PAtom p /\
+    p_res_seq p = 12%Z /\ p_ins p = None /\ p_x p = PF false 1 0 /\ p_y p = PF false 1000 3 /\
+    p_radius p = PF true 5000 4.
+Proof.
+  exists wit_digit_ins. eexists. vm_compute. repeat split.
+Qed.
 
-(* CIF input: print_pqr appends "#"; pdb2pqr's own reader raises on that line,
-   so nothing of an otherwise perfectly formatted file is returned *)
-Theorem ws_cif_trailer_refuted :
-  ws_ok false base_atom = true /\
-  file_chunks true true (print_atoms false [base_atom]) =
-    [ws_line false (with_serial 1 base_atom); "#" ++ nl] /\
-  read_pqr (file_chunks true true (print_atoms false [base_atom])) = inr PValueError /\
-  read_pqr (file_chunks true false (print_atoms false [base_atom])) =
-    inl [expected_ws false (with_serial 1 base_atom)].
+(* the former refutation witnesses of the repaired defects, now regression
+   cases: chain A + resSeq 1000 (F4), resSeq 12 + iCode B (F5), charge -10.5 and
+   radius 10.5 (z|charge|radius fusion; outside in_quantifier), the "#" trailer of
+   mmCIF input (F7).  The harness checks that the real code writes these lines. *)
+Theorem ws_repaired_witnesses :
+  (in_quantifier wit_chain_resseq = true /\ ws_ok true wit_chain_resseq = true /\
+   ws_line true wit_chain_resseq =
+     "ATOM       1  CA   ALA A 1000        1.000   -2.500    3.125  -0.5000  1.8000" ++ nl /\
+   from_pqr_line (ws_line true wit_chain_resseq) = PAtom (expected_ws true wit_chain_resseq)) /\
+  (in_quantifier wit_inscode = true /\ ws_ok true wit_inscode = true /\
+   ws_ok false wit_inscode = true /\
+   ws_line false wit_inscode =
+     "ATOM       1  CA   ALA     12 B      1.000   -2.500    3.125  -0.5000  1.8000" ++ nl /\
+   ws_line true wit_inscode =
+     "ATOM       1  CA   ALA A   12 B      1.000   -2.500    3.125  -0.5000  1.8000" ++ nl /\
+   p_ins (expected_ws false wit_inscode) = Some "B" /\
+   from_pqr_line (ws_line false wit_inscode) = PAtom (expected_ws false wit_inscode) /\
+   from_pqr_line (ws_line true wit_inscode) = PAtom (expected_ws true wit_inscode)) /\
+  (ws_ok false wit_charge = true /\
+   tokens (ws_line false wit_charge) =
+     ["ATOM"; "1"; "CA"; "ALA"; "12"; "1.000"; "-2.500"; "3.125"; "-10.5000"; "1.8000"] /\
+   from_pqr_line (ws_line false wit_charge) = PAtom (expected_ws false wit_charge)) /\
+  (ws_ok false wit_radius = true /\
+   tokens (ws_line false wit_radius) =
+     ["ATOM"; "1"; "CA"; "ALA"; "12"; "1.000"; "-2.500"; "3.125"; "-0.5000"; "10.5000"] /\
+   from_pqr_line (ws_line false wit_radius) = PAtom (expected_ws false wit_radius)) /\
+  (file_chunks true true (print_atoms false [base_atom]) =
+     [ws_line false (with_serial 1 base_atom); "#" ++ nl] /\
+   from_pqr_line ("#" ++ nl) = PNone /\
+   read_pqr (file_chunks true true (print_atoms false [base_atom])) =
+     inl [expected_ws false (with_serial 1 base_atom)]).
 Proof. vm_compute. repeat split. Qed.
 
 (* non-vacuity of the guards: boundary atoms satisfy them *)
@@ -1022,17 +1080,33 @@ Definition edge_atom : atom :=
 Definition edge_atom_ws : atom :=
   mkatom "HETATM" 99999 "HD11" "LIG1" "Z" (-99) "" (mkfx true 999999) (mkfx false 9999999)
          (mkfx true 0) (Some (mkfx true 99999)) None.
+(* inside the quantifier, every --whitespace token at its widest: chain id,
+   4-character resSeq, insertion code *)
+Definition edge_atom_ws4 : atom :=
+  mkatom "HETATM" 99999 "HD11" "LIG1" "Z" (-999) "X" (mkfx true 999999) (mkfx false 9999999)
+         (mkfx true 0) (Some (mkfx true 99999)) (Some (mkfx false 99999)).
 
 Lemma guards_nonvacuous :
   fixed_ok true edge_atom = true /\
   pqr_string true edge_atom =
     "HETATM99999 HD11LIG1 Z-999X   -999.9999999.999  -0.000-99.999999.9999" /\
   read_fixed (pqr_string true edge_atom) = expected_fixed true edge_atom /\
+  ws_ok true edge_atom = true /\
+  ws_line true edge_atom =
+    "HETATM 99999 HD11 LIG1 Z -999 X   -999.999 9999.999   -0.000 -99.9999 99.9999" ++ nl /\
+  from_pqr_line (ws_line true edge_atom) = PAtom (expected_ws true edge_atom) /\
   ws_ok true edge_atom_ws = true /\ ws_ok false edge_atom_ws = true /\
   in_quantifier edge_atom_ws = true /\
   ws_line true edge_atom_ws =
-    "HETATM 99999 HD11 LIG1 Z -99    -999.999 9999.999   -0.000 -9.9999 0.0000" ++ nl /\
-  from_pqr_line (ws_line true edge_atom_ws) = PAtom (expected_ws true edge_atom_ws).
+    "HETATM 99999 HD11 LIG1 Z  -99     -999.999 9999.999   -0.000  -9.9999  0.0000" ++ nl /\
+  from_pqr_line (ws_line true edge_atom_ws) = PAtom (expected_ws true edge_atom_ws) /\
+  in_quantifier edge_atom_ws4 = true /\ ws_ok true edge_atom_ws4 = true /\
+  ws_ok false edge_atom_ws4 = true /\
+  p_chain (expected_ws true edge_atom_ws4) = Some "Z" /\
+  p_res_seq (expected_ws true edge_atom_ws4) = (-999)%Z /\
+  p_ins (expected_ws true edge_atom_ws4) = Some "X" /\
+  from_pqr_line (ws_line true edge_atom_ws4) = PAtom (expected_ws true edge_atom_ws4) /\
+  from_pqr_line (ws_line false edge_atom_ws4) = PAtom (expected_ws false edge_atom_ws4).
 Proof. vm_compute. repeat split. Qed.
 
 
@@ -1155,27 +1229,30 @@ Proof.
   - exists (i ++ "  "). now rewrite app_assoc_s.
 Qed.
 
+Lemma num_ok_fits a : num_ok a = true -> num_fits a = true.
+Proof.
+  unfold num_ok, num_fits, fits. rewrite !andb_true_iff, !Nat.leb_le.
+  intros [[[[[Hi Hx] Hy] Hz] Hch] Hrd]. repeat split; auto; lia.
+Qed.
+
 (* the five numeric tokens of the re-spaced line are the five numeric column
-   slices of the default line, in order, whatever stands before them *)
-Theorem respace_keeps_numeric_tokens cf a :
-  num_ok a = true ->
+   slices of the default line, in order, whatever stands before them (guard:
+   the numbers fit their columns) *)
+Theorem respace_keeps_numeric_tokens_wide cf a :
+  num_fits a = true ->
   exists front,
     tokens (ws_line cf a) = (front ++ num_tokens a)%list /\
     map (fun c => strip (slice (fst c) (snd c) (pqr_string cf a))) num_cols = num_tokens a.
 Proof.
-  unfold num_ok. rewrite !andb_true_iff.
-  intros [[[[[Hi Hx] Hy] Hz] Hch] Hrd].
-  apply fits_le in Hi, Hch, Hrd.
-  assert (Hch8 : String.length (opt_fmt4 (a_charge a)) <= 8) by (clear - Hch; lia).
-  assert (Hrd7 : String.length (opt_fmt4 (a_radius a)) <= 7) by (clear - Hrd; lia).
-  assert (K1 : 1 <= 8 - String.length (opt_fmt4 (a_charge a))) by (clear - Hch; lia).
-  assert (K2 : 1 <= 7 - String.length (opt_fmt4 (a_radius a))) by (clear - Hrd; lia).
+  unfold num_fits. rewrite !andb_true_iff.
+  intros [[[[[Hi Hx] Hy] Hz] Hch8] Hrd7].
+  apply fits_le in Hi, Hch8, Hrd7.
   destruct (ins_field_split (a_ins a)) as [p Ep].
   exists (tokens (take 6 (ljust 6 (a_type a)) ++ " "
                   ++ (take 5 (rjust 5 (Z_to_string (a_serial a))) ++ " " ++ name_field (a_name a))
-                  ++ " " ++ res_field (a_res_name a) ++ " "
-                  ++ take 1 (ljust 1 (if cf then a_chain a else ""))
-                  ++ take 4 (rjust 4 (Z_to_string (a_res_seq a))) ++ p)).
+                  ++ " " ++ (res_field (a_res_name a) ++ " "
+                             ++ take 1 (ljust 1 (if cf then a_chain a else "")))
+                  ++ " " ++ take 4 (rjust 4 (Z_to_string (a_res_seq a))) ++ " " ++ p)).
   split.
   - rewrite (ws_line_fields cf a Hi), Ep.
     rewrite (coord_field_fit _ Hx), (coord_field_fit _ Hy), (coord_field_fit _ Hz).
@@ -1187,8 +1264,8 @@ Proof.
       assert (E : l = A ++ String sp
         (render [Gap (repeat_char sp (8 - String.length X)); Word X; Gap " ";
                  Gap (repeat_char sp (8 - String.length Y)); Word Y; Gap " ";
-                 Gap (repeat_char sp (8 - String.length Zc)); Word Zc;
-                 Gap (repeat_char sp (8 - String.length C)); Word C;
+                 Gap (repeat_char sp (8 - String.length Zc)); Word Zc; Gap " ";
+                 Gap (repeat_char sp (8 - String.length C)); Word C; Gap " ";
                  Gap (repeat_char sp (7 - String.length Rd)); Word Rd; Gap nl]))
     end.
     { cbn [render]. rewrite !app_assoc_s, !app_empty_r. reflexivity. }
@@ -1198,7 +1275,6 @@ Proof.
     unfold X, Y, Zc, C, Rd.
     repeat split; auto using fmt_fixed_no_ws, fmt_fixed_nonempty, opt_fmt4_no_ws,
       opt_fmt4_nonempty, blanks_nonempty.
-    all: try (right; left; reflexivity).
     all: try (left; reflexivity).
   - rewrite <- (app_empty_r (pqr_string cf a)), pqr_string_laid.
     destruct (layout_slices _ _ " " _ _ " " _ _ _ _ _ _ _ _ ""
@@ -1219,6 +1295,14 @@ Proof.
     rewrite (rjust_field_pad 8 _ Hch8), (rjust_field_pad 7 _ Hrd7).
     rewrite !strip_rpad by auto using fmt_fixed_no_ws, opt_fmt4_no_ws. reflexivity.
 Qed.
+
+(* the statement C09 uses (narrower guard num_ok kept for stability) *)
+Theorem respace_keeps_numeric_tokens cf a :
+  num_ok a = true ->
+  exists front,
+    tokens (ws_line cf a) = (front ++ num_tokens a)%list /\
+    map (fun c => strip (slice (fst c) (snd c) (pqr_string cf a))) num_cols = num_tokens a.
+Proof. intros H. apply respace_keeps_numeric_tokens_wide, num_ok_fits, H. Qed.
 
 (* file level *)
 
@@ -1254,8 +1338,8 @@ Proof. unfold write_line. now rewrite orb_true_r. Qed.
 Lemma respace_nonempty s : is_empty (respace s) = false.
 Proof. unfold respace. destruct (slice 0 6 s); reflexivity. Qed.
 
-Lemma ws_chunks_from cf l : all_types_ok l -> forall i cur,
-  written_chunks true false (map item_text (print_items_from cf i cur l)) =
+Lemma ws_chunks_from cf cif l : all_types_ok l -> forall i cur,
+  written_chunks true cif (map item_text (print_items_from cf i cur l)) =
   map (fun s => respace (s ++ nl)) (numbered cf i l).
 Proof.
   unfold written_chunks.
@@ -1263,7 +1347,7 @@ Proof.
   assert (Ha : type_ok (with_serial (Z.of_nat i + 1) a) = true)
     by (change (type_ok a = true); apply Hok; now left).
   assert (Hr : all_types_ok r) by (intros b Hb; apply Hok; now right).
-  assert (W : write_line true false (item_text (ItAtom (pqr_string cf (with_serial (Z.of_nat i + 1) a))))
+  assert (W : write_line true cif (item_text (ItAtom (pqr_string cf (with_serial (Z.of_nat i + 1) a))))
               = respace (pqr_string cf (with_serial (Z.of_nat i + 1) a) ++ nl)).
   { unfold write_line, item_text. now rewrite is_atom_line_pqr. }
   cbn [print_items_from numbered map].
@@ -1275,20 +1359,36 @@ Lemma all_ok_types cf l : forall i, all_ok (ws_ok cf) i l -> all_types_ok l.
 Proof.
   induction l as [|a r IH]; intros i H b Hb; [destruct Hb|].
   destruct H as [Ha Hr]. destruct Hb as [<- | Hb]; [|exact (IH _ Hr b Hb)].
-  unfold ws_ok in Ha. rewrite !andb_true_iff in Ha. tauto.
+  apply ws_ok_spec in Ha as (F & _). unfold fixed_ok in F. rewrite !andb_true_iff in F. tauto.
 Qed.
 
-(* --whitespace file, whole atom list: pdb2pqr's own reader returns every atom,
-   in order, with serial = position *)
-Theorem ws_file_roundtrip cf l :
+(* a trailing line the reader skips (the "#" of mmCIF input) changes nothing *)
+Lemma read_pqr_skip_last xs t : from_pqr_line t = PNone -> read_pqr (xs ++ [t]) = read_pqr xs.
+Proof.
+  intros H. induction xs as [|x r IH]; cbn [List.app read_pqr].
+  - now rewrite H.
+  - rewrite IH. reflexivity.
+Qed.
+
+Lemma hash_line_skipped : from_pqr_line ("#" ++ nl) = PNone.
+Proof. reflexivity. Qed.
+
+(* --whitespace file, whole atom list, PDB or mmCIF input: pdb2pqr's own reader
+   returns every atom, in order, with serial = position *)
+Theorem ws_file_roundtrip cf cif l :
   all_ok (ws_ok cf) 0 l ->
-  read_pqr (file_chunks true false (print_atoms cf l)) =
+  read_pqr (file_chunks true cif (print_atoms cf l)) =
   inl (map (expected_ws cf) (renumbered 0 l)).
 Proof.
-  intros H. unfold file_chunks, print_atoms, print_items. rewrite app_nil_r.
-  rewrite (ws_chunks_from cf l (all_ok_types cf l 0 H)).
-  revert H. generalize 0. induction l as [|a r IH]; intros i H; [reflexivity|].
-  destruct H as [Ha Hr]. cbn [numbered renumbered map read_pqr].
-  fold (ws_line cf (with_serial (Z.of_nat i + 1) a)).
-  rewrite (ws_roundtrip _ _ Ha), (IH _ Hr). reflexivity.
+  intros H. unfold file_chunks, print_atoms, print_items.
+  rewrite (ws_chunks_from cf cif l (all_ok_types cf l 0 H)).
+  assert (R : read_pqr (map (fun s => respace (s ++ nl)) (numbered cf 0 l)) =
+              inl (map (expected_ws cf) (renumbered 0 l))).
+  { revert H. generalize 0. induction l as [|a r IH]; intros i H; [reflexivity|].
+    destruct H as [Ha Hr]. cbn [numbered renumbered map read_pqr].
+    fold (ws_line cf (with_serial (Z.of_nat i + 1) a)).
+    rewrite (ws_roundtrip _ _ Ha), (IH _ Hr). reflexivity. }
+  destruct cif.
+  - rewrite (read_pqr_skip_last _ _ hash_line_skipped). exact R.
+  - rewrite app_nil_r. exact R.
 Qed.
